@@ -513,3 +513,7 @@ mod tests {
         );
     }
 }
+
+#[cfg(feature = "verif-hooks")]
+#[path = "verif_fetcher.rs"]
+pub(crate) mod verif_fetcher;
